@@ -1,7 +1,7 @@
 (* C15 - become changes only the credentials, not the result: what the parent reads back from
    the forked child is the child's store, for every value without an undefined inside. *)
-From Coq Require Import List String Bool.
-From RashV Require Import JsonVal.
+From Coq Require Import List String Bool NArith.
+From RashV Require Import JsonVal Become.
 
 Theorem C15_store_roundtrip : forall v, stable v = true -> of_json (to_json v) = v.
 Proof. exact roundtrip. Qed.
@@ -11,3 +11,24 @@ Proof. exact become_same_store. Qed.
 
 Theorem C15_undefined_does_not_survive_refuted : of_json (to_json MUndef) <> MUndef.
 Proof. exact roundtrip_undefined_refuted. Qed.
+
+(* the credentials: the module runs with the uid AND the primary gid of one passwd entry - the one
+   named by become_user, or the one with that number (Become.v mirrors the lookup of exec_module) *)
+Theorem C15_become_sets_uid_and_gid_of_the_entry : forall db cur p c,
+  b_become p = true -> module_creds db cur p = Some c -> c <> cur ->
+  exists u, In u db /\ c_uid c = u_uid u /\ c_gid c = u_gid u /\
+            (u_name u = b_user p \/ parse_u32 (b_user p) = Some (u_uid u)).
+Proof. exact become_sets_uid_and_gid_of_the_entry. Qed.
+
+(* the main rash process keeps its own credentials afterwards (unless it hands the process over) *)
+Theorem C15_main_process_keeps_its_credentials : forall db cur p,
+  path_of db cur p <> DropThenExec -> main_creds_after db cur p = cur.
+Proof. exact main_process_keeps_its_credentials. Qed.
+
+Theorem C15_without_become_nothing_changes : forall db cur p,
+  b_become p = false -> path_of db cur p = InProcess /\ module_creds db cur p = Some cur.
+Proof. exact no_become_no_change. Qed.
+
+Theorem C15_unknown_user_fails_the_task : forall db cur p,
+  b_become p = true -> lookup_user db (b_user p) = None -> path_of db cur p = UserNotFound /\ module_creds db cur p = None.
+Proof. exact unknown_user_fails. Qed.
